@@ -2,6 +2,7 @@
 epoch / last_epoch / exception kind is compared exactly with the executable model (QV.Model.EarlyStop via
 `c18.fit`, `c18.new`) and with an independent reference decision procedure (the documented rule)."""
 import math
+import random
 import warnings
 
 import numpy as np
@@ -19,7 +20,8 @@ FILES = [
 ]
 REQUIRED_THEOREMS = ["C18_first_stop", "C18_never_self", "C18_needs_history", "C18_variance_refused",
                      "C18_unknown_criterion", "C18_deprecated_eq", "C18_degenerate_no_stop", "C18_tolerance_infinite",
-                     "C18_first_stop_multi", "C18_stop_request_stands", "C18_stop_request_stands_dispatch"]
+                     "C18_first_stop_multi", "C18_stop_request_stands", "C18_stop_request_stands_dispatch",
+                     "C18_fit_keeps_monitoring", "C18_clear_history_monitors"]
 EXTRA_TRUSTED = [
     "C18: the monitored values are scripted functions of the epoch; float64 sub/div/abs/sqrt and `<` of Lean's Float are IEEE, "
     "as are Python's and numpy's, so decisions are compared exactly",
@@ -42,6 +44,16 @@ RULE = ("case = (criterion, evaluator class, patience 1..5, evaluator period 1..
         "stop_training = True at one epoch (in on_epoch_end, as a CallbackBase subclass or a LambdaCallback, or in on_batch_end of that epoch); "
         "also two EVALUATORS (own periods, the same or different quantity names) with one stopper bound to each, all callbacks in "
         "a shuffled list order (oracle only); non-trivial iff some stopper made a comparison. "
+        "SESSIONS: 3..10 consecutive fit calls re-using the SAME evaluator and stopper objects (and the same or a fresh callback list); a call "
+        "makes exactly ONE evaluation (evaluator period <= epochs < 2 * period) or several; epoch numbering restarts at 1 (or 0) in every call or "
+        "continues with starting_epoch; clear_history() before a call with probability 0.15; after a stop the session ends or the flag is reset "
+        "and training resumes; non-trivial iff a comparison took place. "
+        "DEPRECATED CLASS: every VarianceBasedEarlyStopping gets its documented-as-ignored variance_name from {'std_error', 'mean', 'num_samples', "
+        "'variance', '<name>_variance', 'whatever', None}, positionally / by keyword / omitted; the scripted statistics carry std_error and "
+        "num_samples far away from the variance. "
+        "JUDGED AS REFUSED-OR-NOT (no exception type): variance criterion on a MetricEvaluator must be refused, configurations inside the "
+        "quantifier must build and their runs must not raise; unknown criteria, non-evaluators, patience None / str, other spellings of the "
+        "criterion, float patience, untracked names, the stopper's attributes: informational counters. "
         "ARGUMENT FORMS (every generated case, stream `aseed`): the periods of evaluators and stoppers, patience, num_samples, the epochs / "
         "starting_epoch / pos_batch_size / k of fit and the sizes of the state are handed over as Python int, numpy.int64 / int32 / intp / uint8, "
         "0-d integer numpy array or 0-d integer torch tensor; verbose (falsy) and gpu as bool, int, numpy.bool_, numpy comparison result, 0-d numpy "
@@ -177,6 +189,52 @@ def observable_evaluator(fm, pe, obs):
     return ObservableEvaluator(per, obs, verbose=vb, num_samples=ns)
 
 
+# ---------------------------------------------------------------- scripted statistics / the deprecated class's ignored argument
+def stats_entry(val, var, w):
+    """the statistics an ObservableEvaluator records for one quantity at world `w`.  The entries the stopper must NOT read
+    ('std_error', 'num_samples') carry values far away from the variance (1e-10 / 1e10 alternating, 10**6), so a stopper that
+    scales the change by anything other than sqrt(variance) decides differently."""
+    return {"mean": val, "variance": var, "std_error": 1e-10 if w % 2 == 0 else 1e10, "num_samples": 10 ** 6}
+
+
+# `VarianceBasedEarlyStopping(period, tolerance, patience, evaluator_callback, quantity_name, variance_name=None)`: the sixth
+# argument is documented as ignored.  Every deprecated stopper the harness builds gets one of these values (the names of the other
+# recorded statistics, the real one, an old-style '<quantity>_variance', an unknown one, None), positionally, by keyword or omitted -
+# drawn from the case's own seed, so the value streams of the generators are unchanged.
+VARIANCE_NAMES = ["std_error", "mean", "num_samples", "variance", "<name>_variance", "whatever", None]
+VN_HOW = ["pos", "kw", "omit"]
+
+
+def draw_variance_name(seed, salt=0):
+    r = random.Random((int(seed or 0) * 1000003 + salt) & 0xFFFFFFFF)
+    vn = r.choice(VARIANCE_NAMES)
+    how = r.choice(VN_HOW[:2]) if vn is not None else r.choice(VN_HOW)
+    return vn, how
+
+
+def build_deprecated(ps, tol, pa, ev, name, vn, how):
+    from qucumber.callbacks import VarianceBasedEarlyStopping
+
+    if vn == "<name>_variance":
+        vn = f"{name}_variance"
+    if how == "omit":
+        return VarianceBasedEarlyStopping(ps, tol, pa, ev, name)
+    if how == "pos":
+        return VarianceBasedEarlyStopping(ps, tol, pa, ev, name, vn)
+    return VarianceBasedEarlyStopping(ps, tol, pa, ev, name, variance_name=vn)
+
+
+def ctor_fields(stopper):
+    """undocumented attributes of the stopper, read defensively: INFORMATIONAL only (audit X-2)"""
+    out = {}
+    for k in ("criterion", "patience", "period"):
+        try:
+            out[k] = af.plain(getattr(stopper, k))
+        except Exception:  # noqa: BLE001
+            out[k] = "<unreadable>"
+    return out
+
+
 # ---------------------------------------------------------------- the real run
 class EpochRecorder(qc.qucumber.callbacks.CallbackBase):
     def __init__(self, table):
@@ -202,12 +260,12 @@ class Tail(qc.qucumber.callbacks.CallbackBase):
 
 
 def build_stopper(case, evaluator, fm=None):
-    from qucumber.callbacks import EarlyStopping, VarianceBasedEarlyStopping
+    from qucumber.callbacks import EarlyStopping
 
     fm = fm or af.Forms(None)
     ps, pa = fm.i("stopper period", case["ps"], af.PERIOD_INT), fm.i("patience", case["patience_arg"])
     if case.get("deprecated"):
-        return VarianceBasedEarlyStopping(ps, case["tol"], pa, evaluator, case["name"], variance_name=case.get("variance_name"))
+        return build_deprecated(ps, case["tol"], pa, evaluator, case["name"], case.get("variance_name"), case.get("vn_how", "kw"))
     return EarlyStopping(ps, case["tol"], pa, evaluator, case["name"], criterion=case["criterion_str"])
 
 
@@ -229,8 +287,7 @@ def run_impl(case, ctx=None):
         obs = SigmaZ()
         obs.name = track
         ev = observable_evaluator(fm, case["pe"], [obs])
-        ev.system.statistics = lambda nn_state, **kw: {track: {"mean": vals[rec.cur], "variance": vars_[rec.cur],
-                                                                "std_error": 0.0, "num_samples": 1}}
+        ev.system.statistics = lambda nn_state, **kw: {track: stats_entry(vals[rec.cur], vars_[rec.cur], rec.cur)}
     else:
         ev = object()
     res = {}
@@ -240,7 +297,7 @@ def run_impl(case, ctx=None):
             stopper = build_stopper(case, ev, fm)
     except Exception as e:  # noqa: BLE001
         return {"error": type(e).__name__, "where": "constructor"}
-    res["ctor"] = {"criterion": stopper.criterion, "patience": stopper.patience, "period": af.plain(stopper.period)}
+    res["ctor"] = ctor_fields(stopper)
     tail = Tail(rec)
     with warnings.catch_warnings():        # numpy's floating-point warnings are left at their defaults (a warning, not an error)
         warnings.simplefilter("ignore")
@@ -273,11 +330,27 @@ def model_args(case):
         args["patience"] = math.trunc(pa)
     if case.get("tracked_name") and case["tracked_name"] != case["name"]:
         args["tracked_name"] = case["tracked_name"]
+    if case.get("deprecated") and isinstance(case.get("variance_name"), str):
+        args["variance_name"] = case["variance_name"]          # handed to the model's constructor, which ignores it
     return args
+
+
+def lenient(case_or_src):
+    """the configuration uses a form OUTSIDE the property's quantifier that the current code happens to accept: a criterion
+    spelled with other case / surrounding whitespace (documented: 'must be one of relative, absolute, variance'), a patience that
+    is not an int (documented type: int).  A constructor that REFUSES such a form keeps the property: counted, no verdict.  If it is
+    accepted, the run is compared as the criterion / int(patience) it stands for."""
+    cs = case_or_src.get("criterion_str")
+    pa = case_or_src.get("patience_arg")
+    return (cs is not None and cs not in ("relative", "absolute", "variance")) or not (isinstance(pa, int) and not isinstance(pa, bool))
 
 
 def one_case(ctx, case, known_probe=False):
     impl = run_impl(case, ctx)
+    if impl.get("where") == "constructor" and case.get("valid", True) and lenient(case):
+        ctx.case(case, nontrivial=False)
+        ctx.count("out-of-quantifier form (criterion spelling / non-int patience) refused by the constructor: no verdict")
+        return
     ref_stop, ref_fired, compared, degenerate, f8_epoch = reference(case) if case.get("valid", True) else (None, [], False, [], None)
     sig0 = f"EarlyStopping/{case['criterion']}/{case['ek']}"
     # the pre-F8-fix behaviour: ZeroDivisionError out of fit at a relative comparison of Python scalars with a zero reference
@@ -302,10 +375,11 @@ def one_case(ctx, case, known_probe=False):
         m = ctx.driver.call("c18.fit", **model_args(case))
         th = "C18_first_stop"
         if "error" in m or "error" in impl:
-            ctx.point("exception", "property", impl.get("error"), m.get("error"), case, exact=True,
+            # raised-or-not only: the property names no exception type (13.8); the kinds are an informational counter
+            ctx.count(f"exception kinds impl/model: {impl.get('error')}/{m.get('error')}")
+            ctx.point("raised", "property", "error" in impl, "error" in m, case, exact=True,
                       sig=SIG_F8 if f8_raised else f"{sig0}/exception",
-                      theorem="C18_first_stop / C18_degenerate_no_stop (a run with a tracked quantity never raises); constructor table "
-                              "C18_variance_refused / C18_unknown_criterion")
+                      theorem="C18_first_stop / C18_degenerate_no_stop (a run with a tracked quantity never raises)")
         else:
             mo = m["ok"]
             ctx.point("stop", "property", impl["stop"], mo["stop"], case, exact=True, sig=f"{sig0}/stop-flag", theorem=th)
@@ -341,6 +415,222 @@ def one_case(ctx, case, known_probe=False):
                    detail={"impl": impl}, sig=f"{sig0}/needs-history-oracle", theorem="C18_needs_history")
 
 
+# ---------------------------------------------------------------- SESSIONS: several consecutive fit calls on the SAME objects (final pass)
+# The "train a bit more until converged" loop: `fit` is called again and again with the same [evaluator, stopper] objects.  The evaluator
+# keeps its history and the stopper its `last_epoch` from call to call; the epoch numbering of a call restarts at 1 or continues
+# (starting_epoch); a call makes ONE evaluation (evaluator period <= epochs < 2 * period) or several; between two calls the user may call
+# `evaluator.clear_history()`; after a stop the user either ends the session or resets `stop_training = False` and goes on (`resume`).
+# case["segments"] = [{"clear": bool, "cands": [[epoch, world]]}], world tokens unique over the session.
+def run_impl_session(case, ctx=None):
+    from qucumber.observables import SigmaZ
+
+    torch.manual_seed(0)
+    fm = af.Forms(case.get("aseed"), ctx, "session: ")
+    st = tiny_state(fm)
+    data = torch.tensor([[0, 1], [1, 1], [1, 0], [0, 0]], dtype=torch.double)
+    rec = EpochRecorder({})
+    vals = [as_kind(k, x) for k, x in zip(case["kinds"], case["vals"])]
+    vars_ = [as_kind(k, x) for k, x in zip(case["vkinds"], case["vars"])]
+    name = case["name"]
+    if case["ek"] == "metric":
+        ev = metric_evaluator(fm, case["pe"], {name: lambda nn_state: vals[rec.cur]})
+    else:
+        obs = SigmaZ()
+        obs.name = name
+        ev = observable_evaluator(fm, case["pe"], [obs])
+        ev.system.statistics = lambda nn_state, **kw: {name: stats_entry(vals[rec.cur], vars_[rec.cur], rec.cur)}
+    try:
+        with warnings.catch_warnings():
+            warnings.simplefilter("ignore")
+            stopper = build_stopper(case, ev, fm)
+    except Exception as e:  # noqa: BLE001
+        return {"error": type(e).__name__, "where": "constructor"}
+    tail = Tail(rec)
+    cbl = [rec, ev, stopper, tail] if case["eval_first"] else [rec, stopper, ev, tail]
+    if case.get("fresh_list"):
+        mk = (lambda: list(cbl))
+    else:
+        mk = (lambda: cbl)          # the very same list object handed to every call
+    segs = []
+    with warnings.catch_warnings():
+        warnings.simplefilter("ignore")
+        for k, seg in enumerate(case["segments"]):
+            if st.stop_training:
+                if not case["resume"]:
+                    break                       # the session ends at the first stop
+                st.stop_training = False        # resume after a stop: same objects
+            if seg["clear"]:
+                ev.clear_history()
+            rec.table = {e: w for e, w in seg["cands"]}
+            rec.fired = []
+            try:
+                st.fit(data, callbacks=mk(), **fit_args(fm, seg["cands"][-1][0], seg["cands"][0][0]))
+            except Exception as e:  # noqa: BLE001
+                return {"error": type(e).__name__, "where": "fit", "segment": k, "segments": segs}
+            segs.append({"stop": bool(st.stop_training), "last_epoch": stopper.last_epoch, "fired": list(rec.fired), "len": len(ev),
+                         "epochs": [int(x) for x in ev.epochs]})
+    return {"segments": segs}
+
+
+def reference_session(case):
+    """the documented rule walked over the session, independently of the code: per call {stop, last_epoch, fired, len, fresh} +
+    (compared at all?, compared ACROSS calls: a reference evaluation made in an earlier call?)"""
+    p, pe, ps, tol = case["patience"], case["pe"], case["ps"], case["tol"]
+    hist, origin, stop, last, out = [], [], False, None, []
+    compared = across = False
+    for k, seg in enumerate(case["segments"]):
+        if stop:
+            if not case["resume"]:
+                break
+            stop = False
+        if seg["clear"]:
+            hist, origin = [], []
+        fired, fresh = [], False
+        for e, w in seg["cands"]:
+            fired.append(e)
+            if case["eval_first"] and e % pe == 0:
+                hist.append(w)
+                origin.append(k)
+            if e % ps == 0:
+                t = len(hist) - 1
+                if t >= p:
+                    compared = True
+                    across = across or origin[t - p] != k
+                    dev = spec_deviation(case["criterion"], float(case["vals"][hist[t - p]]), float(case["vals"][hist[t]]),
+                                         float(case["vars"][hist[t - p]]))
+                    if dev is not None and dev < tol:
+                        stop, last, fresh = True, e, True
+            if (not case["eval_first"]) and e % pe == 0:
+                hist.append(w)
+                origin.append(k)
+            if stop:
+                break
+        out.append({"stop": stop, "last_epoch": last, "fired": fired, "len": len(hist), "fresh": fresh})
+    return out, compared, across
+
+
+def model_args_session(case):
+    a = model_args({**case, "pre": [], "cands": []})
+    a.pop("pre"), a.pop("cands")
+    a["segments"] = [{"clear": bool(seg["clear"]), "reset": bool(case["resume"]), "cands": seg["cands"]} for seg in case["segments"]]
+    return a
+
+
+def one_session(ctx, case):
+    impl = run_impl_session(case, ctx)
+    if impl.get("where") == "constructor" and lenient(case):
+        ctx.case(case, nontrivial=False)
+        ctx.count("out-of-quantifier form (criterion spelling / non-int patience) refused by the constructor: no verdict")
+        return
+    ref, compared, across = reference_session(case)
+    sig0 = f"EarlyStopping/session/{case['criterion']}"
+    ctx.case(case, nontrivial=compared,
+             sample={"session": case["regime"], "criterion": case["criterion"], "ek": case["ek"], "patience": case["patience"], "pe": case["pe"],
+                     "ps": case["ps"], "resume": case["resume"], "calls": [[seg["cands"][0][0], seg["cands"][-1][0], seg["clear"]] for seg in case["segments"]],
+                     "impl": impl.get("segments", impl)})
+    ctx.count("session.regime=" + case["regime"])
+    ctx.count("session.numbering=" + case["numbering"])
+    ctx.count("session.calls=%d" % len(case["segments"]))
+    ctx.count("session.compared-across-calls" if across else "session.no-comparison-across-calls")
+    if any(seg["clear"] for seg in case["segments"]):
+        ctx.count("session.with-clear_history")
+    nstops = sum(1 for r in ref if r["fresh"])
+    ctx.count("session.stops=%d%s" % (nstops, " (resumed)" if case["resume"] and nstops and len(ref) > 1 + next(i for i, r in enumerate(ref) if r["fresh"]) else ""))
+    th = ("C18_first_stop (every call, with the evaluations of the earlier calls as `prev`: C18_fit_keeps_monitoring, "
+          "C18_clear_history_monitors, C18_fit_entered_stopped)")
+
+    # `last_epoch` after a resumed stop, in a call that did not stop again, is the stale value of the earlier stop in the current code;
+    # the property says nothing about it: masked on both sides
+    def view(segs, fresh):
+        seen, out = False, []
+        for r, f in zip(segs, fresh):
+            out.append([r["stop"], "*" if (seen and not f) else r["last_epoch"], r["fired"]])
+            seen = seen or f
+        return out
+    fresh = [r["fresh"] for r in ref]
+    if "error" in impl:
+        ctx.oracle("a fit call of a session raised although the monitored quantity is tracked", False, case, detail={"impl": impl},
+                   sig=f"{sig0}/unexpected-exception", theorem=th)
+    else:
+        got = impl["segments"]
+        ok = len(got) == len(ref) and view(got, fresh) == view(ref, fresh)
+        ctx.oracle("consecutive fit calls re-using evaluator and stopper: every call stops at the first checked epoch at which the documented "
+                   "rule holds on ALL evaluations made so far (earlier calls included, since the last clear_history), and at no earlier epoch",
+                   ok, case, detail={"impl": view(got, fresh) if len(got) == len(ref) else got, "reference": view(ref, fresh)},
+                   sig=f"{sig0}/first-stop-oracle", theorem=th)
+    if ctx.driver is not None:
+        m = ctx.driver.call("c18.session", **model_args_session(case))
+        if "error" in m or "error" in impl:
+            ctx.count(f"session: exception kinds impl/model: {impl.get('error')}/{m.get('error')}")
+            ctx.point("session.raised", "property", "error" in impl, "error" in m, case, exact=True, sig=f"{sig0}/exception", theorem=th)
+        else:
+            got = impl["segments"]
+            mo = m["ok"][:len(got)]         # a session that ends at its first stop: the later calls are not made
+            fr = (fresh + [False] * len(got))[:len(got)]
+            ctx.point("session.calls", "property", view(got, fr), view(mo, fr), case, exact=True, sig=f"{sig0}/stop-flag,last_epoch,stopping-epoch",
+                      theorem=th)
+            ctx.point("session.evaluator.len", "aux", [r["len"] for r in got], [r["len"] for r in mo], case, exact=True, sig=f"{sig0}/evaluator-len")
+
+
+SESSION_REGIMES = ["one_eval", "one_eval", "one_eval", "several", "mixed"]
+
+
+def mk_session(rng, regime, extra=None):
+    criterion = rng.choice(["relative", "absolute", "variance"])
+    p = rng.choice([1, 1, 2, 2, 3, 5])
+    pe = rng.choice([1, 2, 3, 4])
+    ps = rng.choice([pe, pe, 1, 2, 3])
+    ek = "observable" if criterion == "variance" else rng.choice(["metric", "metric", "observable"])
+    numbering = rng.choice(["restart", "restart", "continue"])
+    nseg = p + rng.choice([2, 3, 4, 5])
+    segments, w, nxt = [], 0, rng.choice([1, 1, 1, 0])
+    for k in range(nseg):
+        r = regime if regime != "mixed" else rng.choice(["one_eval", "several"])
+        n_ep = rng.randrange(pe, 2 * pe) if r == "one_eval" else rng.randrange(2 * pe, 3 * pe + 2)
+        first = nxt if numbering == "continue" else rng.choice([1, 1, 1, 0])
+        last = max(first, first + n_ep - 1)
+        if r == "one_eval":
+            # exactly one multiple of pe among first..last: ONE evaluation in this call
+            while sum(1 for e in range(first, last + 1) if e % pe == 0) > 1:
+                last -= 1
+            while sum(1 for e in range(first, last + 1) if e % pe == 0) < 1:
+                last += 1
+        cands = [[e, w + i] for i, e in enumerate(range(first, last + 1))]
+        w += len(cands)
+        nxt = last + 1
+        segments.append({"clear": k > 0 and rng.random() < 0.15, "cands": cands})
+    total = w
+    family = rng.choice(["monotone", "oscillating", "constant", "zeros", "plateau", "plateau", "monotone"])
+    kindmode = rng.choice(KINDMODES)
+    vars_ = [rng.choice([0.25, 1.0, 4.0, 100.0]) for _ in range(total)]
+    dep = criterion == "variance" and rng.random() < 0.4
+    case = {"session": True, "regime": regime, "numbering": numbering, "criterion": criterion, "criterion_str": criterion, "ek": ek, "patience": p,
+            "patience_arg": p, "pe": pe, "ps": ps, "eval_first": rng.random() < 0.7, "tol": rng.choice([1e-3, 1.0, 1.0, float("inf"), 0.0]),
+            "family": family, "kindmode": kindmode, "name": rng.choice(["Q", "Q", "mean", "last", "epochs"]), "segments": segments,
+            "vals": make_seq(rng, family, total), "kinds": make_kinds(rng, kindmode, total), "vars": vars_, "vkinds": make_kinds(rng, kindmode, total),
+            "deprecated": dep, "resume": rng.random() < 0.5, "fresh_list": rng.random() < 0.5, "valid": True, "aseed": af.new_seed(rng)}
+    if dep:
+        case["variance_name"], case["vn_how"] = draw_variance_name(case["aseed"])
+    if extra:
+        case.update(extra)
+    return case
+
+
+def gen_sessions(ctx, thorough):
+    for i in range(400 if thorough else 70):
+        yield mk_session(ctx.rng, SESSION_REGIMES[i % len(SESSION_REGIMES)])
+
+
+def deprecated_sweep(rng):
+    """every value of the documented-as-ignored `variance_name` x {positional, keyword}, on a decision-sensitive sequence"""
+    for vn in VARIANCE_NAMES:
+        for how in (VN_HOW[:2] if vn is not None else VN_HOW):
+            c = mk_case(rng, "variance", rng.choice([1, 2]), 1, 1, True, rng.choice([1.0, 1e-3]), rng.choice(["monotone", "plateau", "oscillating"]),
+                        rng.choice(["py", "np"]), deprecated=True)
+            c.update(variance_name=vn, vn_how=how, criterion_str="variance", patience_arg=c["patience"])
+            yield c
+
+
 # ---------------------------------------------------------------- several stop sources in ONE fit (hardening round 4)
 class Requester(qc.qucumber.callbacks.CallbackBase):
     """any other callback that asks for a stop: sets `stop_training = True` at the end of the given epochs, or at the end of a
@@ -359,7 +649,7 @@ class Requester(qc.qucumber.callbacks.CallbackBase):
 
 
 def build_source(src, case, ev, fm=None):
-    from qucumber.callbacks import EarlyStopping, LambdaCallback, VarianceBasedEarlyStopping
+    from qucumber.callbacks import EarlyStopping, LambdaCallback
 
     fm = fm or af.Forms(None)
     if src["kind"] == "request":
@@ -374,7 +664,7 @@ def build_source(src, case, ev, fm=None):
     name = case["quantities"][src["q"]]["name"]
     ps, pa = fm.i("stopper period", src["ps"], af.PERIOD_INT), fm.i("patience", src["patience_arg"])
     if src.get("deprecated"):
-        return VarianceBasedEarlyStopping(ps, src["tol"], pa, ev, name)
+        return build_deprecated(ps, src["tol"], pa, ev, name, src.get("variance_name"), src.get("vn_how", "omit"))
     return EarlyStopping(ps, src["tol"], pa, ev, name, criterion=src["criterion_str"])
 
 
@@ -399,8 +689,8 @@ def run_impl_multi(case, ctx=None):
             o.name = q["name"]
             obs.append(o)
         ev = observable_evaluator(fm, case["pe"], obs)
-        ev.system.statistics = lambda nn_state, **kw: {q["name"]: {"mean": vals[i][rec.cur], "variance": vars_[i][rec.cur],
-                                                                    "std_error": 0.0, "num_samples": 1} for i, q in enumerate(qs)}
+        ev.system.statistics = lambda nn_state, **kw: {q["name"]: stats_entry(vals[i][rec.cur], vars_[i][rec.cur], rec.cur)
+                                                       for i, q in enumerate(qs)}
     try:
         with warnings.catch_warnings():
             warnings.simplefilter("ignore")
@@ -482,7 +772,8 @@ def model_args_multi(case):
         if src["kind"] == "request":
             return {"kind": "request", "epochs": src["epochs"]}
         return {"kind": "stopper", "ps": src["ps"], "tol": f2b(src["tol"]), "patience": math.trunc(src["patience_arg"]), "ek": case["ek"],
-                "name": case["quantities"][src["q"]]["name"], "criterion": src["criterion_str"], "deprecated": bool(src.get("deprecated"))}
+                "name": case["quantities"][src["q"]]["name"], "criterion": src["criterion_str"], "deprecated": bool(src.get("deprecated")),
+                **({"variance_name": src["variance_name"]} if src.get("deprecated") and isinstance(src.get("variance_name"), str) else {})}
     mb, ma = model_partition(case)
     return dict(ek=case["ek"], pe=case["pe"], pre=case["pre"], cands=case["cands"],
                 quantities=[{"name": q["name"], "vals": num(q["kinds"], q["vals"]), "vars": num(q["vkinds"], q["vars"])} for q in case["quantities"]],
@@ -493,6 +784,10 @@ def one_multi(ctx, case):
     if case.get("two_evaluators"):
         return one_chain(ctx, case)
     impl = run_impl_multi(case, ctx)
+    if impl.get("where") == "constructor" and any(lenient(s_) for s_ in case["before"] + case["after"] if s_["kind"] == "stopper"):
+        ctx.case(case, nontrivial=False)
+        ctx.count("out-of-quantifier form (criterion spelling / non-int patience) refused by the constructor: no verdict")
+        return
     ref_stop, ref_fired, compared, asking, contested = reference_multi(case)
     order = dispatch_order(case)
     stoppers = [k for k, (s_, _) in enumerate(order) if s_["kind"] == "stopper"]      # same relative order as impl["lasts"]
@@ -520,7 +815,8 @@ def one_multi(ctx, case):
     if ctx.driver is not None:
         m = ctx.driver.call("c18.fit_multi", **model_args_multi(case))
         if "error" in m or "error" in impl:
-            ctx.point("multi.exception", "property", impl.get("error"), m.get("error"), case, exact=True, sig=f"{sig0}/exception", theorem=th)
+            ctx.count(f"multi: exception kinds impl/model: {impl.get('error')}/{m.get('error')}")
+            ctx.point("multi.raised", "property", "error" in impl, "error" in m, case, exact=True, sig=f"{sig0}/exception", theorem=th)
         else:
             mo = m["ok"]
             mb, ma = model_partition(case)
@@ -560,8 +856,8 @@ def build_evaluator(evd, qs, rec, fm=None):
         o.name = q["name"]
         obs.append(o)
     ev = observable_evaluator(fm, evd["pe"], obs)
-    ev.system.statistics = lambda nn_state, **kw: {q["name"]: {"mean": vals[i][rec.cur], "variance": vars_[i][rec.cur],
-                                                                "std_error": 0.0, "num_samples": 1} for i, q in enumerate(qs)}
+    ev.system.statistics = lambda nn_state, **kw: {q["name"]: stats_entry(vals[i][rec.cur], vars_[i][rec.cur], rec.cur)
+                                                   for i, q in enumerate(qs)}
     return ev
 
 
@@ -676,8 +972,12 @@ def mk_chain(rng):
         quantities.append({"name": ["Q", "R"][i] if rng.random() < 0.7 else "Q", "ev": i, "family": fam, "vals": make_seq(rng, fam, n),
                            "kinds": make_kinds(rng, kindmode, n), "vars": [rng.choice([0.25, 1.0, 4.0, 100.0]) for _ in range(n)],
                            "vkinds": make_kinds(rng, kindmode, n)})
+    aseed = af.new_seed(rng)
+    for i, s_ in enumerate(stoppers):
+        if s_["deprecated"]:
+            s_["variance_name"], s_["vn_how"] = draw_variance_name(aseed, i + 1)
     return {"multi": True, "two_evaluators": True, "scenario": "two_evaluators", "evaluators": evaluators, "quantities": quantities,
-            "chain": chain, "pre": [], "cands": cands, "kindmode": kindmode, "valid": True, "aseed": af.new_seed(rng)}
+            "chain": chain, "pre": [], "cands": cands, "kindmode": kindmode, "valid": True, "aseed": aseed}
 
 
 MULTI_SCENARIOS = ["two_stoppers", "two_stoppers", "two_quantities", "request_epoch_end", "request_batch_end", "mixed", "stopper_then_request"]
@@ -743,8 +1043,12 @@ def mk_multi(rng, scenario, thorough=False):
             vars_[rng.randrange(total)] = rng.choice([0.0, -1.0, float("nan")])
         quantities.append({"name": names[i], "family": fam, "vals": make_seq(rng, fam, total), "kinds": make_kinds(rng, kindmode, total),
                            "vars": vars_, "vkinds": make_kinds(rng, kindmode, total)})
+    aseed = af.new_seed(rng)
+    for i, s_ in enumerate(stoppers):
+        if s_["deprecated"]:
+            s_["variance_name"], s_["vn_how"] = draw_variance_name(aseed, i + 1)
     return {"multi": True, "scenario": scenario, "ek": ek, "pe": pe, "quantities": quantities, "before": before, "after": after,
-            "pre": pre, "cands": cands, "kindmode": kindmode, "valid": True, "aseed": af.new_seed(rng)}
+            "pre": pre, "cands": cands, "kindmode": kindmode, "valid": True, "aseed": aseed}
 
 
 def demo_like_multi():
@@ -816,6 +1120,8 @@ def mk_case(rng, criterion, p, pe, ps, eval_first, tol, family, kindmode, start=
             "family": family, "kindmode": kindmode, "name": QUANTITY_NAMES[(7 * p + 3 * pe + ps + total + len(family)) % len(QUANTITY_NAMES)],
             "pre": pre, "cands": cands, "vals": vals, "kinds": kinds,
             "vars": vars_, "vkinds": vkinds, "deprecated": deprecated, "valid": True, "aseed": af.new_seed(rng)}
+    if deprecated:
+        case["variance_name"], case["vn_how"] = draw_variance_name(case["aseed"])
     if extra:
         case.update(extra)
     return case
@@ -879,41 +1185,43 @@ def ctor_cases(rng):
 
 
 def run_ctor(ctx, case):
+    """constructor table.  The property makes exactly two statements about construction: the variance criterion is refused for plain
+    metrics (by EarlyStopping and by the deprecated class), and every configuration inside the quantifier builds.  Only these are
+    judged, as REFUSED-OR-NOT (no exception type, no order of checks: DESIGN 13.8 / audit X-1); everything else in the table (unknown
+    criterion names, objects that are no evaluators, patience None / 'abc', other spellings, float patience) and the stopper's
+    undocumented attributes are informational counters."""
     impl = run_impl(case, ctx)
     ctx.case({"ctor": [case["ek"], case["criterion_str"], repr(case["patience_arg"]), case["deprecated"]]}, nontrivial=True)
-    ctx.count("ctor." + (impl.get("error") if impl.get("where") == "constructor" else "ok"))
+    refused = impl.get("where") == "constructor"
+    ctx.count("ctor." + (impl.get("error") if refused else "ok"))
     cs = case["criterion_str"].strip().lower()
-    # oracle: the documented constructor contract
-    if case["patience_arg"] is None:
-        exp = "TypeError"
-    elif isinstance(case["patience_arg"], str):
-        exp = "ValueError"
-    elif case["ek"] == "other":
-        exp = "TypeError"
-    elif case["deprecated"]:
-        exp = "TypeError" if case["ek"] == "metric" else None
-    elif case["ek"] == "metric" and cs == "variance":
-        exp = "TypeError"
-    elif cs not in ("relative", "absolute", "variance"):
-        exp = "ValueError"
+    pa = case["patience_arg"]
+    if case["ek"] == "metric" and (cs == "variance" or case["deprecated"]):
+        must = True             # variance criterion + plain metrics: refused (whatever else is wrong with the call)
+    elif case["ek"] in ("metric", "observable") and not lenient(case):
+        must = False            # a configuration inside the quantifier: builds
     else:
-        exp = None
-    got = impl.get("error") if impl.get("where") == "constructor" else None
-    ctx.oracle("constructor: variance refused for metrics, unknown criterion ValueError, non-evaluator TypeError", got == exp, case,
-               detail={"got": got, "expected": exp}, sig="EarlyStopping/constructor-oracle", theorem="C18_variance_refused, C18_unknown_criterion")
-    if exp is None and got is None:
-        want_crit = "variance" if case["deprecated"] else cs
-        ctx.oracle("constructor: stored criterion / int(patience)", impl["ctor"]["criterion"] == want_crit and impl["ctor"]["patience"] == math.trunc(case["patience_arg"]),
-                   case, detail=impl["ctor"], sig="EarlyStopping/constructor-fields", theorem="C18_deprecated_eq")
+        must = None
+    if must is not None:
+        ctx.oracle("constructor: the variance criterion (and the deprecated class) is refused for a MetricEvaluator; every configuration "
+                   "inside the quantifier builds", refused == must, case, detail={"refused": refused, "expected_refused": must,
+                                                                                "exception": impl.get("error") if refused else None},
+                   sig="EarlyStopping/constructor-oracle", theorem="C18_variance_refused, C18_deprecated_eq")
+    m = None
     if ctx.driver is not None:
         a = model_args(case)
-        m = ctx.driver.call("c18.new", **{k: a[k] for k in ("ps", "tol", "patience", "ek", "name", "criterion", "deprecated")})
-        ctx.point("ctor.exception", "property", got, m.get("error"), case, exact=True, sig="EarlyStopping/constructor",
-                  theorem="C18_variance_refused, C18_unknown_criterion, C18_deprecated_eq")
-        if "ok" in m and got is None:
-            ctx.point("ctor.fields", "property", [impl["ctor"]["criterion"], impl["ctor"]["patience"], impl["ctor"]["period"]],
-                      [m["ok"]["criterion"], m["ok"]["patience"], m["ok"]["period"]], case, exact=True, sig="EarlyStopping/constructor-fields",
-                      theorem="C18_deprecated_eq")
+        m = ctx.driver.call("c18.new", **{k: a[k] for k in ("ps", "tol", "patience", "ek", "name", "criterion", "deprecated", "variance_name") if k in a})
+        if must is not None:
+            ctx.point("ctor.refused", "property", refused, "error" in m, case, exact=True, sig="EarlyStopping/constructor",
+                      theorem="C18_variance_refused, C18_deprecated_eq")
+        else:
+            ctx.count("ctor (outside the property: informational) refused impl/model " +
+                      ("agree" if refused == ("error" in m) else f"differ: {impl.get('error') if refused else 'ok'}/{m.get('error', 'ok')}"))
+            if refused and "error" in m:
+                ctx.count("ctor (informational) exception kind " + ("same as model" if impl.get("error") == m.get("error") else "other than model"))
+    if not refused and m is not None and "ok" in m:
+        same = [impl["ctor"].get(k) for k in ("criterion", "patience", "period")] == [m["ok"][k] for k in ("criterion", "patience", "period")]
+        ctx.count("ctor (informational) stored attributes criterion/patience/period " + ("as in the model" if same else "differ / not readable"))
 
 
 def deprecated_twin(ctx, case):
@@ -941,14 +1249,19 @@ def run(ctx):
         if case["criterion"] == "variance" and ndep < (60 if ctx.tier == "thorough" else 12):
             deprecated_twin(ctx, case)
             ndep += 1
+    for case in deprecated_sweep(ctx.rng):
+        one_case(ctx, case)
+        deprecated_twin(ctx, case)
     for case in gen_multi(ctx, ctx.tier == "thorough"):
         one_multi(ctx, case)
-    # a quantity the evaluator does not track: KeyError out of fit at the first comparison
+    for case in gen_sessions(ctx, ctx.tier == "thorough"):
+        one_session(ctx, case)
+    # a quantity the evaluator does not track (the current code: KeyError out of fit at the first comparison)
     bad = {**f8_witness(), "criterion": "absolute", "criterion_str": "absolute", "vals": [1.0, 2.0, 3.0, 4.0, 5.0],
            "ek": ctx.rng.choice(["metric", "observable"]), "tracked_name": "other", "valid": False}
     impl = run_impl(bad)
     ctx.case({"untracked": True}, nontrivial=True)
-    ctx.oracle("untracked quantity: KeyError out of fit", impl.get("error") == "KeyError", bad, detail=impl, sig="EarlyStopping/untracked-name")
+    ctx.count("untracked quantity (outside the property: informational): " + str(impl.get("error", "no exception")))
     for case in ctor_cases(ctx.rng):
         run_ctor(ctx, case)
 
@@ -959,16 +1272,40 @@ def search(ctx):
         one_case(ctx, f8_witness(), known_probe=True)
         for case in gen_cases(ctx, True):
             one_case(ctx, case)
+        for case in deprecated_sweep(ctx.rng):
+            one_case(ctx, case)
+            deprecated_twin(ctx, case)
         for case in gen_multi(ctx, True):
             one_multi(ctx, case)
+        for case in gen_sessions(ctx, True):
+            one_session(ctx, case)
         for case in ctor_cases(ctx.rng):
             run_ctor(ctx, case)
     finally:
         ctx.driver = drv
 
 
+def env_run(ctx, env_name):
+    """a handful of cases of every call family under the process-global environment `env_name` (objects built inside it)"""
+    rng = random.Random(18000 + len(env_name))
+    for c in ("relative", "absolute", "variance"):
+        for km in ("py", "np", "t0"):
+            one_case(ctx, mk_case(rng, c, rng.choice([1, 2]), rng.choice([1, 2]), 1, True, 1.0, rng.choice(["monotone", "plateau", "zeros"]), km,
+                                  deprecated=(c == "variance" and km == "np")))
+    for sc in ("two_stoppers", "request_batch_end", "mixed"):
+        one_multi(ctx, mk_multi(rng, sc))
+    one_multi(ctx, mk_chain(rng))
+    for rg in ("one_eval", "several", "mixed"):
+        one_session(ctx, mk_session(rng, rg))
+    for k, case in enumerate(ctor_cases(rng)):
+        if k % 9 == 0:
+            run_ctor(ctx, case)
+
+
 def replay(ctx, case):
-    if case.get("multi"):
+    if case.get("session"):
+        one_session(ctx, case)
+    elif case.get("multi"):
         one_multi(ctx, case)
     elif not case.get("valid", True) and "cands" in case and case.get("ek") in ("metric", "observable", "other") and "criterion_str" in case \
             and not case.get("tracked_name"):
